@@ -42,7 +42,25 @@ def rdSOp : Rd (Option SOp) := do
 def parseS (rest : String) : Behaviour × List SOp :=
   match rest.splitOn ";" with
   | [] => ({}, [])
-  | h :: ops => (rdBehaviour ((words h).headD "0" |>.toNat?.getD 0), ops.filterMap fun o => (rdSOp.run (words o)).1)
+  | h :: ops =>
+    -- `kr x y` keeps a reference to a cell, `sr <el>` / `si <el>` assign through it later (after a draw, say): for the model
+    -- an assignment to that cell.  `cv` / `nc` / `rz` drop the kept reference.  Resolved here, while parsing.
+    let step := fun (acc : List SOp × Option (Int × Int)) (o : String) =>
+      match words o with
+      | "kr" :: rest =>
+        let ((x, y), _) := (do let x ← Rd.int; let y ← Rd.int; return (x, y) : Rd (Int × Int)).run rest
+        (acc.1, some (x, y))
+      | w :: rest =>
+        if w = "sr" || w = "si" then
+          match acc.2 with
+          | some (x, y) => let (e, _) := rdElement.run rest; (acc.1 ++ [SOp.px x y e], acc.2)
+          | none => acc
+        else
+          match (rdSOp.run (w :: rest)).1 with
+          | some op => (acc.1 ++ [op], if w = "cv" || w = "nc" || w = "rz" then none else acc.2)
+          | none => acc
+      | [] => acc
+    (rdBehaviour ((words h).headD "0" |>.toNat?.getD 0), (ops.foldl step ([], none)).1)
 
 def inCanvas (c : Canvas) (x y : Int) : Bool := decide (0 ≤ x) && decide (x < c.size.width) && decide (0 ≤ y) && decide (y < c.size.height)
 
